@@ -1,6 +1,6 @@
 CHECK = dict(
     level="exploration",
-    level_text="Generated-input search. (a) Full handler stack (dnssvc.NewHandlers, shared fixture with C10) with recording query log and billing; every entry handed to the query log is also written by the real querylog.FileSystem and the JSON line is parsed. rapid draws requests x {anonymous, profile by SNI / CPE-ID / linked / dedicated address} x QueryLogEnabled x IPLogEnabled x profile/device filtering flags x scripted filtering outcome (none, request/response blocked, request/response allowed, rewritten, CNAME-rewritten) x dropped (global or profile rate limit, access-blocked, unknown dedicated address) x debug class. Oracle: entry <=> profile and QueryLogEnabled and answered; billing <=> profile and answered (for the CHAOS debug class only the necessary conditions); the client address appears in the entry and in the line iff IPLogEnabled; profile, device, name, type, rcode (of the response the client was sent), protocol, request id, time, client country/ASN, result code, list and rule of the entry and of the line are the request's own, result codes and protocol numbers as documented in doc/querylog.md. (b) 16 goroutines write generated entries (texts needing JSON escaping, embedded line feeds, long rules) through one querylog.FileSystem after a start barrier, also under -race; the file must split into exactly as many lines as writes, each exactly one JSON object of the documented shape, and the multiset of (u, n, q, r, l, m, f, ip, b, i) must equal what was written. Held on N cases / sampled schedules is evidence, not proof.",
+    level_text="Generated-input search. (a) Full handler stack (dnssvc.NewHandlers, shared fixture with C10) with recording query log and billing; every entry handed to the query log is also written by the real querylog.FileSystem and the JSON line is parsed. rapid draws requests x {anonymous, profile by SNI / CPE-ID / linked / dedicated address} x QueryLogEnabled x IPLogEnabled x profile/device filtering flags x scripted filtering outcome (none, request/response blocked, request/response allowed, rewritten, CNAME-rewritten) x dropped (global or profile rate limit, access-blocked, unknown dedicated address) x debug class. Oracle: entry <=> profile and QueryLogEnabled and answered; billing <=> profile and answered (for the CHAOS debug class only the necessary conditions); the client address appears in the entry and in the line iff IPLogEnabled; profile, device, name, type, rcode (of the response the client was sent), protocol, request id, time, client country/ASN, result code, list and rule of the entry and of the line are the request's own, result codes and protocol numbers as documented in doc/querylog.md. Both-stage results (request blocked/allowed/rewritten plus a response-stage block/allow with its own rule) are generated and the request-stage verdict must be the logged one. A third of the requests are near misses of their predecessor (other device/profile, identification dropped, neighbouring client, ...), half of the cases end with a batch served concurrently on the same stack and file log (also under -race), lines being matched to requests by their request ID. (b) 16 goroutines write generated entries (texts needing JSON escaping, embedded line feeds, long rules) through one querylog.FileSystem after a start barrier, also under -race; the file must split into exactly as many lines as writes, each exactly one JSON object of the documented shape, and the multiset of (u, n, q, r, l, m, f, ip, b, i) must equal what was written. Held on N cases / sampled schedules is evidence, not proof.",
     level_note="Goroutine schedules of (b) are sampled, not owned: atomicity of one write(2) with O_APPEND on a local file system is the kernel's; overlap of writers is measured and required. Device identification, access verdicts and rate-limit decisions in (a) are by construction of the fixture (C03/C10/C09 decide them). The response-country field (d), DNSSEC flag (s), elapsed time (e) and random number (rn) are not compared.",
     technique="property-based testing (rapid): request x profile-flag x outcome product on the full stack vs recording query log/billing and the documented JSONL format; concurrent writers vs line parser and multiset equality, also under -race",
     assumptions=[
@@ -11,6 +11,7 @@ CHECK = dict(
     units=[
         dict(name="dnssvc", dir="internal/dnssvc", src=["C10/fixture", "C15/dnssvc"], runs=[
             dict(name="log", run="^TestVerifC15Log$", quick=12000, thorough=400000, shards_quick=2, shards_thorough=8),
+            dict(name="lograce", run="^TestVerifC15Log$", quick=1200, thorough=30000, shards_thorough=4, race=True),
         ]),
         dict(name="querylog", dir="internal/querylog", src="C15/querylog", runs=[
             dict(name="concurrent", run="^TestVerifC15FSConcurrent$", quick=300, thorough=12000, shards_thorough=4),
